@@ -32,6 +32,8 @@ ITER_TABLE = {
 def map_iteration_sites(facts):
     out = []
     for b in facts.all_bodies():
+        if facts.new_and_unreachable(b):
+            continue  # new code that validation never executes: its iteration order reaches no validation outcome
         for bi, t in b.calls():
             c = t.get("callee", "")
             r = t.get("resolved_full", "")
